@@ -104,6 +104,7 @@ class Registry(object):
     self.predicates = {}
     self.modules = {}
     self.concurrency = {}
+    self.aspect_fallback = {}   # aspect -> aspects whose callee contracts it may use when a callee has none of its own
     self.globals = {}      # module-level singletons: name -> dict(type=..., assume=[spec clauses over the name])
 
   def load_package(self, pkgname='specs'):
@@ -154,6 +155,9 @@ class Registry(object):
       if k in self.externs:
         raise ValueError('duplicate extern spec %s' % k)
       self.externs[k] = ExternSpec(k, d)
+    for k, v in getattr(mod, 'ASPECT_FALLBACK', {}).items():
+      self.aspect_fallback.setdefault(k, [])
+      self.aspect_fallback[k] += [a for a in v if a not in self.aspect_fallback[k]]
     for k, d in getattr(mod, 'GLOBALS', {}).items():
       self.globals[k] = d
     for k, d in getattr(mod, 'CONCURRENCY', {}).items():
